@@ -5,7 +5,7 @@
 export GOFLAGS=-mod=mod GOPROXY=off GOSUMDB=off GOTOOLCHAIN=local
 cd /verif
 for D in seeded/${1:-C}*; do
-  N=$(basename $D); ID=$(python3 -c "import json;print(json.load(open('$D/meta.json')).get('breaks_property','${N:0:3}'))")
+  N=$(basename $D); ID=$(python3 -c "import json;m=json.load(open('$D/meta.json'));print(m.get('caught_by') or m.get('breaks_property','${N:0:3}'))")   # caught_by: the change belongs to a neighbouring property's mechanism (say a stale cache entry) and is caught there
   NEUT=$(python3 -c "import json;print(json.load(open('$D/meta.json')).get('neutralised_by',''))")
   [ -n "$NEUT" ] && { echo "$N: neutralised by repair $NEUT (its only trigger is gone on the current HEAD; caught on the tree it was written for)"; continue; }
   OUTS=$(python3 -c "import json;print(json.load(open('$D/meta.json')).get('outside_property',''))")
